@@ -729,6 +729,19 @@ def config_inputs(rng, count):
         k = rng.randrange(n)
         m = copy.deepcopy(base); m["jobs"][k]["est"] = next(x["wall"] for x in groups if x["name"] == m["jobs"][k]["grp"]) + 1
         muts.append(m)
+        if n >= 2:
+            # the file lists the jobs in another order than they were added (what `shuffle_jobs()` / `jade config filter` with
+            # reordered indexes write): still a valid configuration, and the load must keep names, order and dependencies
+            perm = list(range(n))
+            while perm == list(range(n)):
+                rng.shuffle(perm)
+            m = copy.deepcopy(base); m["perm"] = perm; muts.append(m)
+            if auto:
+                # a file in which two unnamed jobs carry the same id (hand-edited / merged files): duplicate names
+                m = copy.deepcopy(base); m["dupid"] = True
+                for j in m["jobs"]:
+                    j["blk"] = []
+                muts.append(m)
         out += muts
     return out
 
@@ -742,7 +755,9 @@ def run_config(c):
     from jade.jobs.job_configuration_factory import create_config_from_file
     from jade.jobs.job_submitter import JobSubmitter
     from jade.models import SubmitterParams, HpcConfig, SlurmConfig, FakeHpcConfig, SubmissionGroup
-    cfgrec = {"jobs": [{"name": j["name"], "blk": j["blk"], "grp": j["grp"], "est": j["est"]} for j in c["jobs"]],
+    cjobs = [c["jobs"][k] for k in c["perm"]] if c.get("perm") else c["jobs"]
+    cfgrec = {"jobs": [{"name": (cjobs[0]["name"] if c.get("dupid") and i == 1 else j["name"]), "blk": j["blk"], "grp": j["grp"], "est": j["est"]}
+                       for i, j in enumerate(cjobs)],
               "groups": [{k: g[k] for k in ("name", "hpc", "maxnodes", "poll", "wall")} for g in c["groups"]]}
     rec = {"kind": "config", "cfg": cfgrec, "accepted": False, "error": "", "sbatch": 0, "dumped": False, "orig": [], "loaded": []}
     base = mkbase()
@@ -807,6 +822,16 @@ def run_config(c):
             rec["orig"] = proj(config)
             path = os.path.join(base, "config.json")
             config.dump(path)
+            if c.get("perm") or c.get("dupid"):
+                with open(path) as fh:
+                    doc = json.load(fh)
+                if c.get("perm"):
+                    doc["jobs"] = [doc["jobs"][k] for k in c["perm"]]
+                    rec["orig"] = [[rec["orig"][0][k] for k in c["perm"]]] + rec["orig"][1:]
+                else:
+                    doc["jobs"][1]["job_id"] = doc["jobs"][0]["job_id"]
+                with open(path, "w") as fh:
+                    json.dump(doc, fh, indent=2)
             loaded = create_config_from_file(path)
             rec["loaded"] = proj(loaded)
             rec["dumped"] = True
